@@ -37,6 +37,15 @@ CLAIMED.update({
          "digests, NULL-ness, format tags, Scan results, ParameterDescription, RowDescription formats and the encoding "
          "found in each DataRow field.",
          CONN_NOTE + " Scan results and field encodings are judged through the harness's own codecs.", CONN_TECH, "4 C08"),
+ "C13": ("TLC explores every client message sequence of bounded length following a CopyInResponse against handlers that "
+         "read to the end, stop early or fail; the transition cover and random COPY sessions (large binary payloads, "
+         "pipelining, extended protocol) run on the real server; TLC validates the CopyInResponse, the class and digest of "
+         "every Read in order, one ErrorResponse + one ReadyForQuery per aborted cycle, silence for stray COPY messages.",
+         CONN_NOTE + " Handlers propagate a non-EOF read error (E22).", CONN_TECH, "4 C13"),
+ "C17": ("TLC enumerates every decorator stack up to a depth bound and checks the flattening rules on the spec operators; "
+         "each error is built with the real errors package, returned through the parser, simple and extended handler paths "
+         "and direct ErrorCode calls (nil included) of the real server; TLC validates every ErrorResponse field for field.",
+         CONN_NOTE + " Texts are NUL-free and non-empty (E19, E21).", CONN_TECH, "4 C17"),
 })
 NOT_YET = "machinery for this property is not built yet in this revision (planned, see DESIGN.md section 4)"
 
